@@ -257,10 +257,13 @@ def run(ctx):
     from . import C11
     C11.r6_every_write_under_buffer_lock(ctx)   # the records of one packet (payload pieces and their Waste frames) are not interleaved with another writer's
     C11.r2_contiguity(ctx)
+    C11.r5_writer_users(ctx)        # write_with_padding is the only code that writes to the transport: nothing bypasses the shaping and what is queued ahead of it
+    C11.r1_flush_atomicity(ctx)     # whatever the cut-off decides about padding, the frames waiting in the first-packet buffer still go out ahead of the frame that follows them
     r6_flushed_before_success(ctx)
     from . import C20
     _reach = C20.input_reachable(ctx)
     C20.r11_counted_loops(ctx, _reach)     # a scheme's numbers size no loop or table without a bound (a pushed `stop=4294967295`)
+    C20.r15_map_index(ctx, _reach)         # a scheme with gaps (no line for some packet below stop) is a valid scheme
     C20.r13_slice_indices(ctx, _reach)     # slices of the payload buffer are covered by its length
     r1_waste_frames(ctx)
     r2_size_conversions(ctx)
